@@ -2159,6 +2159,9 @@ class BSP:
                 prim_count = len(face.primitives)
                 if prim_count > 0x7fff:
                     raise ValueError(f'Too many primitives: {prim_count} in {orig_ind}')
+                if len(face.light_styles) != 4:
+                    # struct would silently pad or truncate this.
+                    raise ValueError(f'Face light styles must be exactly 4 bytes, not {face.light_styles!r}')
                 if not face.dynamic_shadows:
                     prim_count |= 0x8000
 
@@ -2465,6 +2468,10 @@ class BSP:
 
                 # Older leaf lumps include some ambient light data at the end.
                 if has_ambient:
+                    # noinspection PyProtectedMember
+                    if len(leaf._ambient) != 24:
+                        # struct would silently pad or truncate this.
+                        raise ValueError(f'Leaf ambient light data must be exactly 24 bytes, not {leaf._ambient!r}')
                     leafdata = (*leafdata, leaf._ambient)
 
                 buf.write(self.lump_layout['LEAF'].pack(*leafdata))
